@@ -79,7 +79,7 @@ func RunProfile(profile, tier string, seed int64, out string, shards int, script
 	switch profile {
 	case "quant", "floatfix", "fixfloat", "floatfloat", "depth", "freq":
 		return runNumProfile(profile, thorough, seed, out, shards)
-	case "poolseq", "poolforeign", "poolconc":
+	case "poolseq", "poolforeign", "poolconc", "poolcycle":
 		return runPoolProfile(profile, thorough, seed, out)
 	case "hist":
 		s, err := newShards(out, profile, shards)
